@@ -179,6 +179,52 @@ def reassign_sweep(tier, shard, nshards):
     return out[shard::nshards]
 
 
+def check_reentrant(case):
+    """while the library encodes frame A, application code re-enters the library on the
+    same thread (encodes and decodes frame B): A must still come out unchanged"""
+    from pbt import canon as _c
+    from pbt.lib import commands
+    inner = commands.Queue.Declare(0, 'inner-queue', False, True, False, False, False,
+                                   {'inner': [1, 2, {'x': 'y'}]})
+    seen = []
+
+    def hook():
+        data = frame.marshal(inner, 9)
+        seen.append(frame.unmarshal(data)[2].queue)
+    _c.ReentrantDict.hook = hook
+    try:
+        check(case)
+    finally:
+        _c.ReentrantDict.hook = None
+    if not seen:
+        raise Violation('reentrant:hook-not-called', 'harness: the re-entrant mapping '
+                        'was never asked for its items')
+    if set(seen) != {'inner-queue'}:
+        raise Violation('reentrant:inner', 'the inner frame decoded as %r' % (seen,))
+    return ['reentered=%d' % min(len(seen), 3)]
+
+
+def reentrant_cases(tier):
+    from hypothesis import strategies as st
+    from pbt import canon as _c
+    with_tables = [m.dotted for m in spec_table.METHODS
+                   if any(f.type == 'table' for f in m.fields)]
+
+    def wrap(case):
+        m = spec_table.BY_NAME[case['cls']]
+        args = dict(case['args'])
+        for f in m.fields:
+            if f.type == 'table':
+                t = dict(args[f.name]) or {'k': 1}
+                t['nested'] = _c.ReentrantDict({'deep': 1, 'a': 'b'})
+                args[f.name] = _c.ReentrantDict(t)
+        return dict(case, args=args)
+    return st.sampled_from(with_tables).flatmap(
+        lambda d: st.fixed_dictionaries({
+            'cls': st.just(d), 'ch': S.CHANNELS,
+            'args': S.method_args(d, 4, False)})).map(wrap)
+
+
 def check_lenient(case):
     """strings the library may or may not accept (lone surrogates): if the frame is
     accepted and encoded, it must still come back unchanged"""
@@ -258,6 +304,12 @@ COMPONENTS = [
               classes=lambda c: ['inplace' if c['inplace'] else 'setattr'],
               budget={'quick': 6400, 'thorough': 160000},
               describe='random first and second assignment on one object'),
+    Component('reentrant', check_reentrant, strategy=reentrant_cases,
+              nontrivial=lambda c: True,
+              classes=lambda c: ['class=' + c['cls'].split('.')[0]],
+              budget={'quick': 1600, 'thorough': 32000},
+              describe='frames whose table arguments call back into the library (encode '
+                       'and decode another frame on the same thread) while being encoded'),
     Component('surrogates', check_lenient, strategy=lenient_cases,
               classes=lambda c: ['class=' + c['cls'].split('.')[0]],
               budget={'quick': 6400, 'thorough': 160000},
